@@ -563,7 +563,7 @@ func c33Reads(w *c33World, op *c33Op, r *vkit.Run) (reads map[string]string, vie
 			known[e.Name] = true
 			c, ok := listed[e.Name]
 			switch {
-			case !ok:
+			case !ok, c.Status != "fail": // a listed passing gate was already reported above; its view is "passing"
 				reads[e.Part] = "unlisted"
 			case e.PKind == "slready" && strings.HasPrefix(c.Message, "shard loading failed: "):
 				reads[e.Part] = "listed:failed:" + strings.TrimPrefix(c.Message, "shard loading failed: ")
@@ -687,7 +687,7 @@ func TestC33(t *testing.T) {
 		"health checks return immutable responses (BasicResponse); the documented FreshnessResponse render/aggregate skew is not exercised",
 		"SchedulerPulseCheck inputs are ≥29 s away from its 30 s threshold")
 	r.Trust("porcupine v1.3.0 linearizability checker", "Go race detector (build race)")
-	n := r.N(1500, 10000)
+	n := r.N(1500, 40000)
 	var pcOK, pcIllegal, pcUnknown int64
 	reported := map[string]bool{}
 	report := func(v c33Viol) {
